@@ -121,6 +121,7 @@ def gen_specs(tier, seed):
     for r in (1, 2, 3):
         for c in (1, 2, 3):
             shapes.append((c,) * r)
+    shapes += [(12,), (1,) * 11, (10,) * 2]      # dimensions of two digits
     ragged = [(1, 2), (2, 1), (3, 1), (1, 3), (2, 2, 1), (1, 2, 3), (3, 2, 1), (2, 1, 1), (1, 1, 2), (3, 3, 2), (2, 3, 3), (1, 3, 2)]
     for dtype in ("int", "float", "complex"):
         for rl in shapes + ragged:
@@ -129,6 +130,8 @@ def gen_specs(tier, seed):
                 if sm in ("exact", "wrong") and len(set(rl)) > 1:
                     continue
                 uses = ["none", "idx", "arg"] if sm == "none" else ["none"]
+                if n > 9:
+                    uses = [u for u in uses if u != "idx"]      # (the index stub forks over at most 9 positions)
                 for use in uses:
                     specs.append(("array", dtype, rl, sm, (), use))
             # bare parameters among the elements
